@@ -13,6 +13,7 @@
    chkd <cwdhex> <fuel> <pline>... -> "panic" | "ok <flagged>:<because>:<R|N|O>..." for check_denoted, followed by
                               " one1" / " one0" (one_spelling_b)
    sndp <fuel> <i> <pline>... -> as snd
+   chkc <fuel> <line>...   -> as chk, for check_c; a line word that starts with C is inside a conditional section
    alone <cwdhex> <pkgdirhex> <fragdirhex> <fragbasehex> <dirhex>=<spelledhex>... -> "1" | "0"  (analysed_alone)
    samed <cwdhex> <phex> <qhex> -> "1" | "0" (same_denotation) *)
 let parse_chunks (s : string) : chunk list =
@@ -26,8 +27,11 @@ let parse_chunks (s : string) : chunk list =
 let parse_op = function
   | "a" -> OpAssign | "s" -> OpShell | "e" -> OpEval | "p" -> OpAppend | "d" -> OpDefault
   | _ -> failwith "bad op"
+(* a leading C on the file id = the line is inside a conditional section (used by chkc only) *)
+let is_cond (w : string) : bool = String.length w > 0 && w.[0] = 'C'
+let strip_cond (w : string) : string = if is_cond w then String.sub w 1 (String.length w - 1) else w
 let parse_line (w : string) : line =
-  match String.split_on_char ':' w with
+  match String.split_on_char ':' (strip_cond w) with
   | [f; n; "x"] -> { l_file = n_of_int (int_of_string f); l_lineno = n_of_int (int_of_string n); l_body = None }
   | [f; n; o; v; cs] ->
     { l_file = n_of_int (int_of_string f); l_lineno = n_of_int (int_of_string n);
@@ -45,11 +49,13 @@ let kind_letter k = match k with KRedundant -> "R" | KNoEffect -> "N" | KOverwri
 let uniq l = List.sort_uniq compare l
 let handle (args : string list) : string =
   match args with
-  | ("chk" | "chkp") :: fuel :: ls ->
+  | ("chk" | "chkp" | "chkc") :: fuel :: ls ->
     let fuel = nat_of_int (int_of_string fuel) in
     let spelled = (List.hd args = "chkp") in
     let p = if spelled then intern_by str_eqb (List.map parse_pline ls) else List.map parse_line ls in
-    (match (if spelled then check_spelled (List.map parse_pline ls) else check p) with
+    (match (if spelled then check_spelled (List.map parse_pline ls)
+            else if List.hd args = "chkc" then check_c (List.map (fun w -> (is_cond w, parse_line w)) ls)
+            else check p) with
      | Panic -> "panic"
      | OutOfFuel -> "outoffuel"
      | Ok vs ->
